@@ -31,6 +31,16 @@ func add(prop, name, typ, value, doc string) {
 	facts = append(facts, fact{prop, name, typ, value, doc})
 }
 
+// raw Lean text a property appends to its generated module (tables too large for `add`), and the
+// modules that text needs imported. Both optional; a module with neither looks exactly as before.
+var rawLean = map[string]string{}
+var rawImports = map[string][]string{}
+
+func addRaw(prop string, imports []string, text string) {
+	rawImports[prop] = append(rawImports[prop], imports...)
+	rawLean[prop] += text
+}
+
 var fset = token.NewFileSet()
 var files = map[string]*ast.File{}
 var repo string
@@ -253,6 +263,9 @@ func main() {
 	js := map[string]map[string]string{}
 	for _, p := range props {
 		var sb strings.Builder
+		for _, im := range rawImports[p] {
+			sb.WriteString("import " + im + "\n")
+		}
 		sb.WriteString("/- GENERATED by /verif/extract from the current /repo working tree. Do not edit. -/\n")
 		sb.WriteString("namespace Bpmn.Gen." + p + "\n\n")
 		js[p] = map[string]string{}
@@ -266,6 +279,7 @@ func main() {
 				js[p][f.Name] = f.Value
 			}
 		}
+		sb.WriteString(rawLean[p])
 		sb.WriteString("end Bpmn.Gen." + p + "\n")
 		if err := os.WriteFile(filepath.Join(*out, p+".lean"), []byte(sb.String()), 0o644); err != nil {
 			fmt.Fprintln(os.Stderr, err)
